@@ -80,6 +80,11 @@ func (tty *stdIoTty) Start() error {
 	}
 
 	_ = tty.in.SetReadDeadline(time.Time{})
+	// Drain switched the descriptor to non-blocking mode to get the reader
+	// out of its Read.  Unlike /dev/tty this file is not opened afresh, so
+	// that has to be taken back, or every Read after a Suspend and Resume
+	// fails with EAGAIN.
+	_ = syscall.SetNonblock(tty.fd, false)
 	saved, err := term.MakeRaw(tty.fd) // also sets vMin and vTime
 	if err != nil {
 		return err
